@@ -399,6 +399,10 @@ static void captureExecutedProcessOutput(ProcessDelegate& delegate,
         sys::FileDescriptorTraits<>::Read(outputPipe.unsafeDescriptor(), buf, sizeof(buf));
     if (numBytes < 0) {
       int err = errno;
+      // A signal handler installed without SA_RESTART interrupts the read; this
+      // is not an error and no output may be dropped because of it.
+      if (err == EINTR)
+        continue;
       delegate.processHadError(ctx, handle,
                                Twine("unable to read process output (") +
                                    sys::strerror(err) + ")");
